@@ -7,6 +7,11 @@ events, gate releases and request arrival are separate sources, so Explorer A en
 interleavings (this drives the has_data / priority-tree wake-up protocol of the send task through
 every order within the bounds).
 
+Single-path (M=0) families on top of the grid: responses that end with TRAILERS (te: trailers; with and
+without body bytes, next to an ordinary stream, at window 0 and 65 535) and config.h2_max_concurrent_streams =
+N in {2, 3} with a client that holds exactly N gated streams open at once (or N-1 plus a PRIORITY frame naming an
+idle stream): everything the client was told it may do.
+
 Oracle
   client-rejects-frame   the independent h2 client state machine raises on server output
                          (flow-control window or max-frame-size overrun, bad stream state)
@@ -17,6 +22,9 @@ Oracle
                          stream and connection windows at the client, and yet nothing is being sent
   sibling-blocked        a stream with credit did not complete because another is stalled or reset
   send-not-released      an application still waits in send() although all it has submitted reached the client
+                         (a body piece, or the trailers once every body byte is there)
+  not-delivered          the initial windows cover every response, the client resets nothing and spoke its preface
+                         first, yet at the end of the execution a requested stream lacks data or its one END_STREAM
   never-yields/livelock  the server spins instead of going quiescent (watchdog / step cap)
 """
 from __future__ import annotations
@@ -33,14 +41,21 @@ ID = "C09"
 LEVEL = "model_checking"
 TECHNIQUE = ("stateless deviation-bounded exploration of credit/reset/priority events against gated application "
              "writes on the real H2Protocol send task; independent h2 client state machine as flow-control oracle")
-RULE = ("scenario = engine x initial window x frame size x stream set (chunkings) x credit script; sources client, "
+RULE = ("scenario = engine x initial window x frame size x stream set (chunkings, with / without trailers) x credit script "
+        "[x h2_max_concurrent_streams N with N concurrent streams]; sources client, "
         "credit, app are interleaved by Explorer A within (M,S) bounds; non-trivial = instance ran and non-default "
         "choice taken; distinct by digest of per-stream client events and send outcomes")
 ASSUMPTIONS = [
     "the h2 library's client role is the reference for window / frame-size accounting",
     "promptness is judged at quiescent points only (nothing runnable, no due timer)",
+    "not-delivered is demanded only where no credit is needed at all (every response fits the initial stream window "
+    "and all of them the 65 535 B connection window), for streams whose HEADERS were sent by a client that sent its "
+    "preface first",
+    "trailers streams: END_STREAM is due once the application has handed over http.response.trailers (it travels on "
+    "their HEADERS frame); whether the trailers' fields arrive is C02's",
 ]
-BOUNDS_DOC = {"quick": "M<=1, S<=2; windows {0,1,7,65535}; <=3 streams", "thorough": "M<=2, S<=3, trio R<=1"}
+BOUNDS_DOC = {"quick": "M<=1, S<=2; windows {0,1,7,65535}; <=3 streams; trailers (5 sets) and max-concurrent-streams N in {2,3} "
+                       "(3 sets): M=0, S<=1 (thorough: M<=1, S<=2)", "thorough": "M<=2, S<=3, trio R<=1"}
 BUDGET = {"quick": 300, "thorough": 1800}
 
 IWS = h2.settings.SettingCodes.INITIAL_WINDOW_SIZE
@@ -53,17 +68,32 @@ CHUNKINGS = {
     "empty": [],  # no body bytes at all: END_STREAM needs no window
     "exact": [b"e" * 65535],  # exactly the default stream/connection window
     "huge": [bytes([97 + (i % 26)]) * 35000 for i in range(2)],  # 70 000 B > connection window
+    # responses that END WITH TRAILERS (request carries te: trailers, http.response.start has trailers: True): the
+    # END_STREAM travels on the trailers' HEADERS frame, which needs no window; with no body bytes at all (gRPC
+    # style "headers, no messages, trailers") nothing but the trailers ever wakes the send task for the stream
+    "tr_empty": [],
+    "tr_three": [b"0123456789", b"abcdefghij", b"ABCDEFGHIJ"],
 }
+TRAILERS = {"type": "http.response.trailers", "headers": [(b"x-t", b"1")], "more_trailers": False}
+
+
+def has_trailers(name: str) -> bool:
+    return name.startswith("tr_")
 
 
 def app_prog(name: str, sid: int) -> list:
     chunks = CHUNKINGS[name]
-    prog: list = [("recv_body",), ("send", {"type": "http.response.start", "status": 200, "headers": []})]
+    start = {"type": "http.response.start", "status": 200, "headers": []}
+    if has_trailers(name):
+        start["trailers"] = True
+    prog: list = [("recv_body",), ("send", start)]
     for i, ch in enumerate(chunks):
         if i == 1:
             prog.append(("gate", f"g{sid}"))
         prog.append(("send", {"type": "http.response.body", "body": ch, "more_body": True}))
     prog.append(("send", {"type": "http.response.body", "body": b"", "more_body": False}))
+    if has_trailers(name):
+        prog.append(("send", TRAILERS))
     return prog
 
 
@@ -90,6 +120,8 @@ def credit_script(name: str, sids: List[int]) -> list:
     if name == "rst_prio":  # the client cancels a stream and re-prioritises it afterwards (RFC 9113 5.3.4 allows that)
         return [("cmd", 0, "rst", sids[0], 8), ("cmd", 0, "prio", sids[0], 0, 50, False)] + \
                [("cmd", 0, "winup", s, big) for s in sids[1:]] + [("cmd", 0, "winup", 0, big)]
+    if name == "prio_idle":  # PRIORITY frames naming streams that are never opened (placeholders, RFC 7540 5.3.4)
+        return [("cmd", 0, "prio", 11, 0, 10, False)]
     if name == "prio":
         out = []
         if len(sids) > 1:
@@ -102,6 +134,15 @@ def credit_script(name: str, sids: List[int]) -> list:
 STREAMSETS = [("one",), ("three",), ("big",), ("three", "one"), ("big", "three"), ("huge",), ("big", "big", "one")]
 CREDITS = ["none", "stream_then_conn", "conn_then_stream", "trickle", "settings_up", "settings_down_up", "rst_first", "prio"]
 
+
+# Single-path (M=0) families on top of the grid:
+# trailers: (window, stream set, credit script); window 0 + no credit: a body-less response with trailers needs no window
+TRAILER_SETS = [(65535, ("tr_empty",), "none"), (65535, ("tr_three",), "none"), (65535, ("tr_empty", "three"), "none"),
+                (0, ("tr_empty",), "none"), (0, ("tr_three", "tr_empty"), "stream_then_conn")]
+# config.h2_max_concurrent_streams = N (6th element ("maxc", N)) and a client that holds exactly N streams open at
+# once (every application parked on its gate), or N-1 plus a PRIORITY frame for an idle stream: what the client was
+# told it may do; every stream must be delivered
+MAXC_SETS = [(2, ("three", "three"), "none"), (3, ("three", "three", "three"), "none"), (3, ("three", "three"), "prio_idle")]
 
 BIGWIN = 2 ** 20  # stream windows far larger than the connection window: only stream-0 credit matters
 UPLOAD_FRAMES = 300  # 1 data byte + 255 padding each: 257 flow-controlled bytes per frame, 77 100 in total
@@ -126,6 +167,11 @@ def scenarios(tier: str) -> List[Any]:
             for cr in ("conn_only", "none"):
                 out.append((engine, BIGWIN, 16384, ss, cr))
     for engine in ("asyncio", "trio"):
+        for win, ss, cr in TRAILER_SETS:
+            out.append((engine, win, 16384, ss, cr))
+        for n, ss, cr in MAXC_SETS:
+            out.append((engine, 65535, 16384, ss, cr, ("maxc", n)))
+    for engine in ("asyncio", "trio"):
         for win in ((0, 7, 65535) if tier == "quick" else (0, 1, 7, 65535)):
             for mfs in (16384, 20000):
                 for ss in STREAMSETS:
@@ -146,6 +192,8 @@ def scenarios(tier: str) -> List[Any]:
 def bounds(tier: str, params: Any) -> dict:
     if params[1] == "upload":
         return {"M": 0, "S": 0, "R": 0}
+    if len(params) > 5 or any(has_trailers(n) for n in params[3]):
+        return {"M": 0, "S": 1, "R": 0} if tier == "quick" else {"M": 1, "S": 2, "R": 0}
     if tier == "quick":
         return {"M": 1, "S": 2, "R": 0}
     return {"M": 2, "S": 3, "R": 1 if params[0] == "trio" else 0}
@@ -218,19 +266,22 @@ def oracle_upload(w: Any, params: Any) -> List[dict]:
 def build(params: Any) -> tuple:
     if params[1] == "upload":
         return build_upload(params)
-    engine, win, mfs, ss, cr = params
+    engine, win, mfs, ss, cr = params[:5]
     sids = sids_of(ss)
     client = [("cmd", 0, "preface")]
     apps = {}
     for name, sid in zip(ss, sids):
-        client.append(("cmd", 0, "headers", sid, h2_request_headers(b"GET", b"/s%d" % sid), True))
+        extra = [(b"te", b"trailers")] if has_trailers(name) else []
+        client.append(("cmd", 0, "headers", sid, h2_request_headers(b"GET", b"/s%d" % sid, extra=extra), True))
         apps["http:/s%d" % sid] = app_prog(name, sid)
     sources = [("client", client), ("credit", credit_script(cr, sids)),
-               ("app", [("release", f"g{s}") for s in sids])]
+               ("app", [("release", f"g{s}") for n, s in zip(ss, sids) if len(CHUNKINGS[n]) > 1])]  # gates that exist
     conn = {"carrier": "h2", "tls": True, "alpn": "h2", "auto_ack": False,
             "h2_settings": {IWS: win, MFS: mfs}}
     sc = {"level": "conn", "conns": {0: conn}, "client_factory": make_client, "apps": apps,
           "config": {"keep_alive_timeout": 5}, "sources": sources, "trio_rev": True, "monitor": monitor}
+    if params[5:] and params[5][0] == "maxc":
+        sc["config"]["h2_max_concurrent_streams"] = params[5][1]
     return engine, sc
 
 
@@ -280,11 +331,15 @@ def monitor(w: Any) -> None:
 def oracle(w: Any, params: Any) -> List[dict]:
     if params[1] == "upload":
         return oracle_upload(w, params)
-    engine, win, mfs, ss, cr = params
+    engine, win, mfs, ss, cr = params[:5]
     out: List[dict] = []
     rec = w.conns[0]
     cl = rec.client.h2
-    tag = f"win{win}:mfs{mfs}:{cr}"
+    tag = f"win{win}:mfs{mfs}:{cr}" + "".join(f":{k}{v}" for k, v in params[5:6])
+    # the initial windows (stream: win, connection: always 65 535) alone cover every byte of every response and the client resets nothing: whatever the
+    # order of events, at the end of the execution (no source can continue: a gate release that is still disabled
+    # means its application never got that far) everything the applications were asked for must have arrived
+    roomy = min(win, 65535) >= sum(len(b"".join(CHUNKINGS[n])) for n in ss) and not cr.startswith("rst") and cr != "settings_down_up"
     if cl.error is not None:
         out.append(V("client-rejects-frame", f"{tag}:{cl.error.split(':')[0]}", cl.error))
     sids = sids_of(ss)
@@ -303,7 +358,8 @@ def oracle(w: Any, params: Any) -> List[dict]:
             out.append(V("end-stream", f"{tag}:{name}:early", f"stream {sid}: ended after {len(st['body'])} of {len(want)} bytes"))
         # the application has handed over its final message and every body byte has been delivered: the (zero
         # length) END_STREAM needs no flow-control credit and must be there once the server is quiescent
-        done = any(s[2]["type"] == "http.response.body" and not s[2].get("more_body", False) for s in inst.sends)
+        last_type = "http.response.trailers" if has_trailers(name) else "http.response.body"
+        done = any(s[2]["type"] == last_type and not s[2].get("more_body", False) for s in inst.sends)
         if done and st["body"] == want and st["ended"] != 1 and st["reset"] is None and rec.closed_at is None \
                 and not _client_reset(w, sid) and st["headers"] is not None:
             out.append(V("end-stream", f"{tag}:{name}:missing", f"stream {sid}: all {len(want)} bytes delivered, app returned, no END_STREAM"))
@@ -314,9 +370,24 @@ def oracle(w: Any, params: Any) -> List[dict]:
                 and rec.closed_at is None and len(st["body"]) == _submitted(inst) and not cl.pending:
             out.append(V("send-not-released", f"{tag}:{name}", f"stream {sid}: all {_submitted(inst)} submitted bytes delivered, "
                                                                f"yet the application is still waiting in send()"))
+        if inst.sends and inst.sends[-1][3] == "pending" and inst.sends[-1][2]["type"] == "http.response.trailers" \
+                and st["reset"] is None and not _client_reset(w, sid) and rec.closed_at is None \
+                and len(st["body"]) == _submitted(inst) and not cl.pending:
+            out.append(V("send-not-released", f"{tag}:{name}:trailers", f"stream {sid}: all {_submitted(inst)} body bytes delivered, "
+                                                                        f"yet the application is still waiting in send(trailers)"))
         for fr in cl.frames_data:
             if fr[1] == sid and fr[2] > mfs:
                 out.append(V("client-rejects-frame", f"{tag}:frame-size", f"DATA frame of {fr[2]} > {mfs}"))
+    fired = [e for _, e in w.driver.fired]
+    if roomy and cl.error is None and fired and fired[0] == ("cmd", 0, "preface"):  # (a client that speaks before its preface is at fault)
+        for name, sid in zip(ss, sids):
+            st = cl.streams.get(sid)
+            if not any(e[:4] == ("cmd", 0, "headers", sid) for e in fired):
+                continue
+            if st is None or st["body"] != b"".join(CHUNKINGS[name]) or st["ended"] != 1:
+                out.append(V("not-delivered", f"{tag}:{name}", f"stream {sid}: end of the execution, windows never in the way, client has "
+                                                             f"{None if st is None else (len(st['body']), st['ended'], st['reset'])}; "
+                                                             f"goaway={cl.goaway} closed_at={rec.closed_at}"))
     for msg in _stalled(w):
         out.append(V("stalled-with-credit", tag, msg))
     out = [v for v in out if not (v["clause"] == "harness-problem")]
